@@ -201,6 +201,9 @@ pub enum MaybeTlsStream {
     /// An in-memory bidirectional pipe.
     #[cfg(test)]
     Test(tokio::io::DuplexStream),
+    /// A simulated connection (cfg(iroh_verif) only).
+    #[cfg(iroh_verif)]
+    Sim(Pin<Box<dyn verif::SimIo>>),
 }
 
 impl MaybeTlsStream {
@@ -214,6 +217,8 @@ impl MaybeTlsStream {
         let stream = match self {
             #[cfg(test)]
             Self::Test(_) => return,
+            #[cfg(iroh_verif)]
+            Self::Sim(_) => return,
             Self::Plain(stream) => stream,
             Self::Tls(tls_stream) => tls_stream.get_ref().0,
         };
@@ -238,6 +243,13 @@ impl ExportKeyingMaterial for MaybeTlsStream {
         label: &[u8],
         context: Option<&[u8]>,
     ) -> Option<T> {
+        #[cfg(iroh_verif)]
+        if let Self::Sim(s) = self {
+            let mut output = output;
+            return s
+                .sim_export_keying_material(output.as_mut(), label, context)
+                .then_some(output);
+        }
         let Self::Tls(tls) = self else {
             return None;
         };
@@ -260,6 +272,8 @@ impl AsyncRead for MaybeTlsStream {
             MaybeTlsStream::Tls(s) => Pin::new(s).poll_read(cx, buf),
             #[cfg(test)]
             MaybeTlsStream::Test(s) => Pin::new(s).poll_read(cx, buf),
+            #[cfg(iroh_verif)]
+            MaybeTlsStream::Sim(s) => s.as_mut().poll_read(cx, buf),
         }
     }
 }
@@ -274,6 +288,8 @@ impl AsyncWrite for MaybeTlsStream {
             MaybeTlsStream::Tls(s) => Pin::new(s).poll_flush(cx),
             #[cfg(test)]
             MaybeTlsStream::Test(s) => Pin::new(s).poll_flush(cx),
+            #[cfg(iroh_verif)]
+            MaybeTlsStream::Sim(s) => s.as_mut().poll_flush(cx),
         }
     }
 
@@ -286,6 +302,8 @@ impl AsyncWrite for MaybeTlsStream {
             MaybeTlsStream::Tls(s) => Pin::new(s).poll_shutdown(cx),
             #[cfg(test)]
             MaybeTlsStream::Test(s) => Pin::new(s).poll_shutdown(cx),
+            #[cfg(iroh_verif)]
+            MaybeTlsStream::Sim(s) => s.as_mut().poll_shutdown(cx),
         }
     }
 
@@ -299,6 +317,8 @@ impl AsyncWrite for MaybeTlsStream {
             MaybeTlsStream::Tls(s) => Pin::new(s).poll_write(cx, buf),
             #[cfg(test)]
             MaybeTlsStream::Test(s) => Pin::new(s).poll_write(cx, buf),
+            #[cfg(iroh_verif)]
+            MaybeTlsStream::Sim(s) => s.as_mut().poll_write(cx, buf),
         }
     }
 
@@ -312,6 +332,8 @@ impl AsyncWrite for MaybeTlsStream {
             MaybeTlsStream::Tls(s) => Pin::new(s).poll_write_vectored(cx, bufs),
             #[cfg(test)]
             MaybeTlsStream::Test(s) => Pin::new(s).poll_write_vectored(cx, bufs),
+            #[cfg(iroh_verif)]
+            MaybeTlsStream::Sim(s) => s.as_mut().poll_write_vectored(cx, bufs),
         }
     }
 
@@ -321,6 +343,8 @@ impl AsyncWrite for MaybeTlsStream {
             MaybeTlsStream::Tls(s) => s.is_write_vectored(),
             #[cfg(test)]
             MaybeTlsStream::Test(s) => s.is_write_vectored(),
+            #[cfg(iroh_verif)]
+            MaybeTlsStream::Sim(s) => s.is_write_vectored(),
         }
     }
 }
@@ -807,5 +831,63 @@ mod tests {
         }
 
         Ok(())
+    }
+}
+
+/// Verification wrappers (cfg(iroh_verif) only).
+#[cfg(iroh_verif)]
+pub mod verif {
+    use std::{
+        pin::Pin,
+        sync::Arc,
+        task::{Context, Poll},
+    };
+
+    use tokio::{
+        io::{AsyncRead, AsyncWrite},
+        sync::watch,
+    };
+
+    use super::{InvalidBucketConfig, RateLimited};
+    use crate::server::{ClientRateLimit, Metrics};
+
+    /// A simulated connection that can stand in for a TCP/TLS stream.
+    pub trait SimIo: AsyncRead + AsyncWrite + Send + std::fmt::Debug {
+        /// TLS exporter of the simulated connection; returns false when there is no TLS.
+        fn sim_export_keying_material(
+            &self,
+            output: &mut [u8],
+            label: &[u8],
+            context: Option<&[u8]>,
+        ) -> bool;
+    }
+
+    /// The relay's per-client read rate limiter over an arbitrary byte source.
+    #[derive(Debug)]
+    pub struct RateLimitedReader<S>(RateLimited<S>);
+
+    impl<S> RateLimitedReader<S> {
+        /// `RateLimited::from_watcher`, the constructor `Inner::accept` uses.
+        pub fn from_watcher(
+            io: S,
+            watcher: watch::Receiver<Option<ClientRateLimit>>,
+        ) -> Result<Self, InvalidBucketConfig> {
+            RateLimited::from_watcher(io, watcher, Arc::new(Metrics::default())).map(Self)
+        }
+
+        /// How often reads were rate-limited so far.
+        pub fn limited_count(&self) -> u64 {
+            *self.0.limited_watcher().borrow()
+        }
+    }
+
+    impl<S: AsyncRead + Unpin> AsyncRead for RateLimitedReader<S> {
+        fn poll_read(
+            mut self: Pin<&mut Self>,
+            cx: &mut Context<'_>,
+            buf: &mut tokio::io::ReadBuf<'_>,
+        ) -> Poll<std::io::Result<()>> {
+            Pin::new(&mut self.0).poll_read(cx, buf)
+        }
     }
 }
